@@ -1,7 +1,7 @@
 #!/bin/bash
 # reverdict.sh <seed dir name, e.g. C15b> : re-run the quick check on the seeded change and update only the verdict in meta.json
 set -u
-S="$1"; P="${S%b}"; P="${P%c}"
+S="$1"; P="${S%[bcde]}"
 D=/verif/seeded/$S
 cd /repo; git status --short | grep -q . && { echo "/repo not clean"; exit 2; }
 git apply "$D/patch.diff" || exit 2
